@@ -1,2 +1,114 @@
 #![allow(warnings, clippy::all, clippy::pedantic, clippy::nursery)]
+//@ module: commands::check
 use super::*;
+use std::sync::Arc;
+use crate::error::verif_harness as vh;
+use crate::backend::decrypt::{DecryptBackend, verif_harness::FlagKey};
+use crate::backend::WriteBackend;
+use crate::blob::BlobLocation;
+use crate::repofile::indexfile::{IndexBlob, IndexPack};
+use crate::repofile::packfile::verif_harness as pvh;
+
+// ---------------------------------------------------------------------------
+// C05, per-pack kernel: `check_pack` reports nothing  =>  what restore will read through the index is intact
+// ---------------------------------------------------------------------------
+const PAYLOAD: usize = 2;
+const BLOB: usize = PAYLOAD + 32;
+const HDR: usize = 2 * 37 + 32;
+const PACK: usize = 2 * BLOB + HDR + 4;
+
+fn any_id2() -> Id { let mut r = [0u8; 32]; r[0] = kani::any(); r[1] = kani::any(); Id::new(r) }
+
+fn check_pack_case<const REJECT: bool>() {
+    let ids = [any_id2(), any_id2()];
+    let tpe = if kani::any() { BlobType::Tree } else { BlobType::Data };
+    let pack_id = any_id2();
+    let index_pack = IndexPack {
+        id: PackId::from(pack_id),
+        // deliberately listed out of offset order: check_pack sorts
+        blobs: vec![
+            IndexBlob { id: BlobId::from(ids[1]), tpe, location: BlobLocation { offset: BLOB as u32, length: BLOB as u32, uncompressed_length: None } },
+            IndexBlob { id: BlobId::from(ids[0]), tpe, location: BlobLocation { offset: 0, length: BLOB as u32, uncompressed_length: None } },
+        ],
+        time: None,
+        size: None,
+    };
+    let bytes: [u8; PACK] = kani::any();
+    // bound: the two trailer entries are uncompressed ones (type byte 0 or 1)
+    kani::assume(bytes[2 * BLOB + 16] <= 1 && bytes[2 * BLOB + 16 + 37] <= 1);
+    let data = Bytes::copy_from_slice(&bytes);
+    let rec = Arc::new(vh::NullBe::new());
+    let be = DecryptBackend::new(rec.clone() as Arc<dyn WriteBackend>, FlagKey::<REJECT>);
+    let p = Progress::hidden();
+    let collector = CheckResultsCollector::default();
+    let r = check_pack(&be, index_pack, data, &p, &collector);
+    let n_findings = collector.findings.lock().unwrap().len();
+    let clean = r.is_ok() && n_findings == 0;
+    if clean {
+        assert!(!REJECT, "a pack whose contents do not decrypt passed the check");
+        // the file is the one the index names
+        assert!(vh::stub_hash(&bytes) == pack_id);
+        // the trailer length and the trailer agree with the index
+        assert!(u32::from_le_bytes([bytes[PACK - 4], bytes[PACK - 3], bytes[PACK - 2], bytes[PACK - 1]]) == HDR as u32);
+        let t = &bytes[2 * BLOB + 16..2 * BLOB + 16 + 74];
+        let h0 = pvh::ref_entry(t, 0, 0);
+        let h1 = pvh::ref_entry(t, 37, BLOB as u32);
+        assert!(h0.location.length == BLOB as u32 && h1.location.length == BLOB as u32);
+        assert!(h0.tpe == tpe && h1.tpe == tpe && *h0.id == ids[0] && *h1.id == ids[1]);
+        // every blob, read where the index says it is (as restore does), has the content its id names
+        assert!(vh::stub_hash(&bytes[16..16 + PAYLOAD]) == ids[0]);
+        assert!(vh::stub_hash(&bytes[BLOB + 16..BLOB + 16 + PAYLOAD]) == ids[1]);
+    }
+    kani::cover!(REJECT || clean, "a clean pack exists (accepting key)");
+    kani::cover!(REJECT || (r.is_ok() && n_findings == 1), "a finding is reported (accepting key)");
+    kani::cover!(!REJECT || r.is_err(), "rejecting key: error returned");
+    std::mem::forget(r); std::mem::forget(collector); std::mem::forget(be); std::mem::forget(rec); std::mem::forget(p);
+}
+
+//@ harness: c05_check_pack_clean_means_intact
+//@ prop: C05
+//@ tier: quick
+//@ timeout: 1500
+//@ mem: 16
+//@ unwindset: hasher.*hash=190; stub_hash=190; decrypt_data=80
+//@ kernel: commands::check::check_pack (size / pack-hash / trailer-length / trailer-vs-index comparison, per-blob decrypt + hash), CheckResultsCollector::add_error, PackHeaderRef::{from_index_pack,size}, IndexPack::pack_size
+//@ bound: one pack file of 178 symbolic bytes checked against an index entry of two uncompressed blobs of 34 bytes (2 payload bytes each) with symbolic ids (2 significant bytes), symbolic pack id, symbolic common blob type; trailer entries restricted to the uncompressed kinds; AEAD verdict: accepts every frame (this harness) / rejects (c05_check_pack_rejecting_key)
+//@ oracle: if check_pack returns Ok and records no finding then: hash(file) is the indexed pack id, the length field is the header size computed from the index, the decrypted trailer decodes (independent reference decoder) to exactly the indexed blobs, and the bytes restore would read for each blob through the index (offset, length) decrypt to content whose hash is the blob id
+//@ stub: crypto::hasher::hash -> H' (position/length-sensitive checksum); PackHeader::from_binary -> reference decoder for two uncompressed entries (binrw outside); PackHeaderLength::from_binary -> u32 LE; CryptoKey = FlagKey (verdict is a harness constant; strips the 16+16 framing); RusticError::*, ToString, fmt::format (error text); Backtrace::capture
+//@ assume: the AEAD rejects whatever it should (C04: strength outside); SHA-256 collision resistance (H' stands for it)
+//@ outside: compressed blobs (zstd), packs of other shapes, which packs are selected for reading (check_trees / read-data subsets), index-vs-listing comparison (B-trees), tree walk
+#[kani::proof]
+#[kani::unwind(40)]
+#[kani::stub(std::backtrace::Backtrace::capture, crate::error::verif_harness::stub_backtrace_capture)]
+#[kani::stub(alloc::fmt::format, crate::error::verif_harness::stub_format)]
+#[kani::stub(crate::error::RusticError::new, crate::error::verif_harness::stub_rustic_new)]
+#[kani::stub(crate::error::RusticError::attach_context, crate::error::verif_harness::stub_attach_context)]
+#[kani::stub(crate::error::RusticError::attach_source, crate::error::verif_harness::stub_attach_source)]
+#[kani::stub(alloc::string::ToString::to_string, crate::error::verif_harness::ToStringModel::to_string)]
+#[kani::stub(crate::crypto::hasher::hash, crate::error::verif_harness::stub_hash)]
+#[kani::stub(crate::repofile::packfile::PackHeader::from_binary, crate::repofile::packfile::verif_harness::stub_header_decode2)]
+#[kani::stub(crate::repofile::packfile::PackHeaderLength::from_binary, crate::repofile::packfile::verif_harness::stub_len_from_binary)]
+pub(crate) fn c05_check_pack_clean_means_intact() { check_pack_case::<false>(); }
+
+//@ harness: c05_check_pack_rejecting_key
+//@ prop: C05 C04
+//@ tier: quick
+//@ timeout: 1500
+//@ mem: 16
+//@ unwindset: hasher.*hash=190; stub_hash=190; decrypt_data=80
+//@ kernel: as c05_check_pack_clean_means_intact
+//@ bound: as c05_check_pack_clean_means_intact with a key that rejects every frame
+//@ oracle: check_pack never comes back clean (Err or a finding)
+//@ stub: as c05_check_pack_clean_means_intact
+#[kani::proof]
+#[kani::unwind(40)]
+#[kani::stub(std::backtrace::Backtrace::capture, crate::error::verif_harness::stub_backtrace_capture)]
+#[kani::stub(alloc::fmt::format, crate::error::verif_harness::stub_format)]
+#[kani::stub(crate::error::RusticError::new, crate::error::verif_harness::stub_rustic_new)]
+#[kani::stub(crate::error::RusticError::attach_context, crate::error::verif_harness::stub_attach_context)]
+#[kani::stub(crate::error::RusticError::attach_source, crate::error::verif_harness::stub_attach_source)]
+#[kani::stub(alloc::string::ToString::to_string, crate::error::verif_harness::ToStringModel::to_string)]
+#[kani::stub(crate::crypto::hasher::hash, crate::error::verif_harness::stub_hash)]
+#[kani::stub(crate::repofile::packfile::PackHeader::from_binary, crate::repofile::packfile::verif_harness::stub_header_decode2)]
+#[kani::stub(crate::repofile::packfile::PackHeaderLength::from_binary, crate::repofile::packfile::verif_harness::stub_len_from_binary)]
+pub(crate) fn c05_check_pack_rejecting_key() { check_pack_case::<true>(); }
